@@ -202,7 +202,7 @@ def cases(ctx):
                                             spec.R(1, 1, [spec.F("Ab"), spec.F("aB")])]), ctcs=[])
     for i in range(200 if ctx.tier == "quick" else 3000):
         n = g.rng.choice([1, 2, 3, 5, 9, 14]) if ctx.tier == "quick" else g.rng.choice([1, 2, 5, 12, 40, 150])
-        m = g.model(n, kinds=kinds, ctc_depth=2, abstract=True,
+        m = g.model(n, kinds=kinds, ctc_depth=2, abstract=True, typed=True, fcard=True,
                     name_classes=("plain", "space", "keyword", "nonascii", "punct"))
         yield "random", m
 
